@@ -122,7 +122,7 @@ def _num_field(text):
     if nd == 0:
         return None
     exp = 0
-    if i < n and text[i] in 'eE':
+    if i < n and text[i] in 'eEdD':
         i += 1
         eneg = False
         if i < n and text[i] in '+-':
@@ -195,6 +195,21 @@ def ref_input_line(line, types):
                 return None
             vals.append(v)
         else:
+            # in range: the value must round to a finite number of the type
+            from fractions import Fraction
+            neg, mant, e10 = nf
+            if e10 > 400:
+                if mant != 0:
+                    return None
+                mag = Fraction(0)
+            elif e10 < -500:
+                mag = Fraction(0)
+            else:
+                mag = Fraction(mant) * (Fraction(10) ** e10)
+            limit = (Fraction(2) ** 128 - Fraction(2) ** 103) if t == '!' \
+                else (Fraction(2) ** 1024 - Fraction(2) ** 970)
+            if mag >= limit:
+                return None
             vals.append(('float', nf))
     return vals
 
@@ -436,3 +451,59 @@ def check_using_field(sign_begin, n_int, comma, n_dec, sign_end, vi,
     exp = ref_unescape(prefix) + ref_number(field, value) + \
         ref_unescape(suffix)
     return 1 if got == exp else 0
+
+
+def check_using_two_fields(sep):
+    """C19 family C (native enumeration): every ordered pair of numeric
+    field structures (1-4 digit positions, comma or not, no point / 0-2
+    decimals) separated by `sep`, with every ordered pair of catalogue
+    values: each value is rendered in ITS OWN field's width / decimals /
+    separators, values consumed left to right."""
+    import itertools
+    shapes = [(ni, cm, nd) for ni in (1, 2, 3, 4) for cm in (0, 1)
+              for nd in (-1, 0, 1, 2)]
+    vals = [0, 1, -1, 7.25, 999.6, 1234, 1.5]
+    for s1, s2 in itertools.product(shapes, repeat=2):
+        f1 = build_field(0, *s1, 0)
+        f2 = build_field(0, *s2, 0)
+        fmt = f1 + sep + f2
+        for v1, v2 in itertools.product(vals, repeat=2):
+            got = run_using(fmt, [v1, v2])
+            exp = ref_number(f1, v1) + ref_unescape(sep) + ref_number(f2, v2)
+            if got != exp:
+                TWO_FIELD_FAILED.append((fmt, v1, v2, got, exp))
+                print('PRINT USING %r; %r; %r -> %r, expected %r'
+                      % (fmt, v1, v2, got, exp))
+                return 0
+    return 1
+
+
+TWO_FIELD_FAILED = []
+
+
+INPUT_BOUNDARY_LINES = [
+    '32767', '32768', '-32768', '-32769', '32767.4', '32767.5', '32767.6',
+    '32766.5', '-32768.5', '-32768.6', '2147483647', '2147483648',
+    '-2147483648', '-2147483649', '2147483647.4', '2147483647.5',
+    '2147483647.9', '2147483646.5', '-2147483648.5', '-2147483648.6',
+    '2.1474836476e9', '2.147483647e9', '1e10', '3e4', '3.27675e4', '1d3',
+    '0.5', '1.5', '2.5', '-0.5', '.5', '5.', '1e', 'e1', '1e+', '--1',
+    '+1', '1 2', '', ' ', '1e400', 'nan', 'inf', '1_0', '0x10', '1,2',
+]
+
+
+def check_input_boundary():
+    """C18 (native enumeration): boundary response lines for every numeric
+    target type, alone and as the second of two fields."""
+    for t in '%&!#':
+        for line in INPUT_BOUNDARY_LINES:
+            if ',' in line:
+                continue
+            if check_input(t, '', True, False, line, '1') != 1:
+                print('INPUT %s answered %r' % (t, line))
+                return 0
+            if check_input('%' + t, 'v', True, False, '7,' + line,
+                           '1,1') != 1:
+                print('INPUT %%,%s answered %r' % (t, '7,' + line))
+                return 0
+    return 1
